@@ -171,4 +171,16 @@ def r1_7(ctx):
     borrow(ctx, r8_12, "R8.12", "R1.7", " [a progress bar never exceeds its width only if its fill is computed from the clamped completed value]")
 
 
-RULES = [r1_1, r1_2, r1_3, r1_4, r1_5, r1_6, r1_7]
+def r1_8(ctx):
+    from .c13 import r13_7
+    from .common import borrow
+    borrow(ctx, r13_7, "R13.7", "R1.8", " [a line is cropped to W cells only if the crop is computed in cells: a quantity in cells never indexes a string]")
+
+
+def r1_9(ctx):
+    from .c13 import r13_2
+    from .common import borrow
+    borrow(ctx, r13_2, "R13.2", "R1.9", " [every width this property speaks about comes out of the width-table lookup]")
+
+
+RULES = [r1_1, r1_2, r1_3, r1_4, r1_5, r1_6, r1_7, r1_8, r1_9]
